@@ -99,9 +99,10 @@ def parseOp (toks : List String) : POp :=
     | _, _ => POp.bad bad
   match toks with
   | ["connect", a, b] => n2 a b (fun a b => .op (.connect a b)) "r=bad"
+  | ["disconnect", a, b] => n2 a b (fun a b => .op (.disconnect a b)) "r=nolink"
   | ["replay", a, b] => n2 a b (fun a b => .op (.replay a b [])) "r=nolink"
   | ["announce", a] => match nat? a with
-    | some a => .op (.announce a)
+    | some a => .op (.announce a [])
     | none => .bad "r=bad"
   | ["withdraw", a] => match nat? a with
     | some a => .op (.withdraw a)
@@ -136,12 +137,15 @@ def exec (s : Net) (op : Op) : Net × String :=
   match op with
   | .connect a b =>
     (s', if a < s.n ∧ b < s.n ∧ a ≠ b then "r=ok" else "r=bad")
-  | .replay a b ord =>
+  | .disconnect a b =>
+    if a < s.n ∧ b < s.n ∧ linked s a b then (s', line "ok" [nodeStr s' a, nodeStr s' b])
+    else (s', "r=nolink")
+  | .replay a b hint =>
     if a < s.n ∧ b < s.n ∧ linked s a b then
-      let eo := effOrd (s.nodes a) b ord
+      let eo := (effFrames (s.nodes a) b hint).map (·.origin)
       (s', line ("ord:" ++ joinOr "," (eo.map toString)) [nodeStr s' a, queueStr s' a b])
     else (s', "r=nolink")
-  | .announce a =>
+  | .announce a _ =>
     if a < s.n then (s', line "ok" (nodeStr s' a :: outQueues s' a)) else (s', "r=bad")
   | .withdraw a =>
     if a < s.n then (s', line "ok" (nodeStr s' a :: outQueues s' a)) else (s', "r=bad")
@@ -195,34 +199,6 @@ def ordOf (implOut : String) : Option (List Node) :=
       if body = "_" then some [] else (body.splitOn ",").mapM nat?
     else none
   | [] => none
-
-/-- default / follow modes. -/
-def stepLine (follow : Bool) (st : Option Net) (input : String) : Option Net × String :=
-  let (opLine, impl) := if follow then
-      match input.splitOn "\t" with
-      | [o, i] => (o, i)
-      | _ => (input, "")
-    else (input, "")
-  let toks := tokens opLine
-  match toks with
-  | "reset" :: _ =>
-    match parseReset toks with
-    | some c => let s := c.initNet; (some s, resetLine s)
-    | none => (none, "r=bad")
-  | _ =>
-    match st with
-    | none => (none, "r=noreset")
-    | some s =>
-      match parseOp toks with
-      | .bad ans => (some (step s .dump), ans)
-      | .op (.replay a b _) =>
-        let ord := if follow then (ordOf impl).getD [] else []
-        let (s', out) := exec s (.replay a b ord)
-        -- an order that is not a permutation of the model's origin set is not admissible
-        let admissible := !follow || !(a < s.n ∧ b < s.n ∧ linked s a b) ||
-          isPermOf ord (replayOrigins (s.nodes a) b)
-        (some s', if admissible then out else out ++ " inadmissible-order")
-      | .op o => let (s', out) := exec s o; (some s', out)
 
 /-! ### parsing implementation answers (spec mode) -/
 
@@ -343,6 +319,16 @@ structure Obs where
   relayed : List (Node × Nat) := []
   /-- `genuine` as it was before the op being checked -/
   genuinePrev : List (Node × Nat) := []
+  /-- tick of the last `disconnect` (0 = the topology only grew so far) -/
+  lastDisc : Nat := 0
+  /-- tick at which (origin, seq) was issued by its origin -/
+  issuedAt : List ((Node × Nat) × Nat) := []
+  /-- relayed keys whose number did NOT come from the replayer's own counter -/
+  forged : List (Node × Nat) := []
+  /-- last printed sequence counter of every agent -/
+  counters : List (Node × Nat) := []
+  /-- (origin, lowest, highest sequence number) of the origin's latest announcement -/
+  lastAnn : List (Node × Nat × Nat) := []
 
 def Obs.queue (o : Obs) (a b : Node) : List Adv :=
   match o.queues.find? (fun q => q.1 == (a, b)) with
@@ -353,6 +339,21 @@ def Obs.setQueue (o : Obs) (a b : Node) (ms : List Adv) : Obs :=
   { o with queues := ((a, b), ms) :: o.queues.filter (fun q => q.1 != (a, b)) }
 
 def Obs.linked (o : Obs) (a b : Node) : Bool := o.links.contains (a, b)
+
+def Obs.counter (o : Obs) (a : Node) : Nat :=
+  match o.counters.find? (fun c => c.1 == a) with
+  | some c => c.2
+  | none => (o.cfg.localsOf a).length
+
+/-- The links a route's path may use are known to be current: the topology never shrank, or the
+    route's announcement was issued by its origin after the last disconnect (and its number was not
+    also used by somebody's table replay, which re-advertises paths stored earlier). -/
+def Obs.pathIsCurrent (o : Obs) (e : Entry) : Bool :=
+  o.lastDisc == 0 ||
+  (!(o.relayed.contains (e.origin, e.seq)) &&
+    match o.issuedAt.find? (fun i => i.1 == (e.origin, e.seq)) with
+    | some i => i.2 > o.lastDisc
+    | none => false)
 
 def hasDup : List Nat → Bool
   | [] => false
@@ -393,10 +394,12 @@ def entryChecks (p : Prop5) (o : Obs) (x : Node) (e : Entry) : List (Bool × Str
   | .c12 =>
     if !learned then [] else
     [ (e.path.head? == some e.nextHop, "path-head-not-next-hop"),
-      (o.linked x e.nextHop, "next-hop-not-neighbour"),
-      (chainOK o.linked x e.path, "path-not-chain"),
-      (e.path.getLast? == some e.origin, "path-does-not-end-at-origin"),
-      (openRoute o.linked x e == some e.origin, "open-does-not-reach-origin") ]
+      (e.path.getLast? == some e.origin, "path-does-not-end-at-origin") ] ++
+    (if o.pathIsCurrent e then
+      [ (o.linked x e.nextHop, "next-hop-not-neighbour"),
+        (chainOK o.linked x e.path, "path-not-chain-of-current-links"),
+        (openRoute o.linked x e == some e.origin, "open-does-not-reach-origin") ]
+     else [])
   | .c13 =>
     if !learned then [] else
     match baseOf o.cfg e with
@@ -429,6 +432,18 @@ def convergeChecks (o : Obs) (v : View) : List (Bool × String) :=
         && (o.cfg.localsOf org).all (fun r => nx.tab.any (fun e => e.kind == r.kind && e.key == r.key && e.origin == org)),
         "not-converged")))).flatten
 
+/-- `dump converged` for C14: after every origin's last announcement has quiesced, every stored
+    copy of one of its CIDR / domain / forward routes carries a sequence number of that announcement. -/
+def renewedChecks (o : Obs) (v : View) : List (Bool × String) :=
+  if v.queues.any (fun q => !q.msgs.isEmpty) then [] else
+  (v.nodes.map (fun nx =>
+    (nx.tab.filter (fun e => e.kind != 3 && e.origin != nx.id && e.path.length > 0)).map (fun e =>
+      match o.lastAnn.find? (fun l => l.1 == e.origin) with
+      | none => (true, "")
+      | some l =>
+        if e.seq > l.2.2 && !(o.genuine.contains (e.origin, e.seq)) then (false, "refresh-blocked-by-replayed-sequence")
+        else (decide (l.2.1 ≤ e.seq), "stored-copy-not-renewed-at-quiescence")))).flatten
+
 /-- Checks that need the op, the delivered frame and the history. -/
 def opChecks (p : Prop5) (o : Obs) (toks : List String) (v : View) : List (Bool × String) :=
   match toks with
@@ -453,7 +468,9 @@ def opChecks (p : Prop5) (o : Obs) (toks : List String) (v : View) : List (Bool 
             if !(isGenuine m) || m.wd then [] else
             if v.res = "seen" then
               -- legitimately "already seen" only if this agent handled a genuine copy of this key before
-              [ (o.marked.contains key, "genuine-announcement-ignored-replay-key-collision") ]
+              [ (o.marked.contains key,
+                  if o.forged.contains (m.origin, m.seq) then "genuine-announcement-ignored-key-not-from-replayer-counter"
+                  else "genuine-announcement-ignored-replay-key-collision") ]
             else if v.res = "new" then
               match v.nodes.find? (fun nv => nv.id == b) with
               | none => []
@@ -512,6 +529,14 @@ def Obs.update (o : Obs) (toks : List String) (v : View) : Obs :=
       match nat? a, nat? b with
       | some a, some b => if v.res = "ok" then { o with links := (a, b) :: (b, a) :: o.links } else o
       | _, _ => o
+    | ["disconnect", a, b] =>
+      match nat? a, nat? b with
+      | some a, some b =>
+        if v.res = "ok" then
+          { o with links := o.links.filter (fun l => l != (a, b) && l != (b, a)), lastDisc := o.clock,
+                   queues := o.queues.filter (fun q => q.1 != (a, b) && q.1 != (b, a)) }
+        else o
+      | _, _ => o
     | _ => o
   -- sequences issued by this op
   let o := match toks with
@@ -524,8 +549,14 @@ def Obs.update (o : Obs) (toks : List String) (v : View) : Obs :=
     | ["announce", a] =>
       match nat? a with
       | some a =>
-        let news := (v.queues.map (fun q => q.msgs.getLast?.toList)).flatten
-        { o with genuine := (news.filter (fun m => m.origin == a)).map (fun m => (m.origin, m.seq)) ++ o.genuine }
+        let news := match v.queues.head? with
+          | some q => q.msgs.drop (o.queue q.a q.b).length
+          | none => []
+        let keys := (news.filter (fun m => m.origin == a && !m.wd)).map (fun m => (m.origin, m.seq))
+        let seqs := keys.map (·.2)
+        { o with genuine := keys ++ o.genuine, issuedAt := keys.map (fun k => (k, o.clock)) ++ o.issuedAt,
+                 lastAnn := if seqs.isEmpty then o.lastAnn
+                   else (a, seqs.foldl min (seqs.headD 0), seqs.foldl max 0) :: o.lastAnn.filter (fun l => l.1 != a) }
       | none => o
     | ["replay", a, b] =>
       match nat? a, nat? b with
@@ -534,11 +565,17 @@ def Obs.update (o : Obs) (toks : List String) (v : View) : Obs :=
         | some q =>
           let old := (o.queue a b).length
           let news := q.msgs.drop old
-          { o with genuine := (news.filter (fun m => m.origin == a)).map (fun m => (m.origin, m.seq)) ++ o.genuine,
-                   relayed := (news.filter (fun m => m.origin != a)).map (fun m => (m.origin, m.seq)) ++ o.relayed }
+          let own := (news.filter (fun m => m.origin == a)).map (fun m => (m.origin, m.seq))
+          let ctr := o.counter a
+          { o with genuine := own ++ o.genuine,
+                   issuedAt := own.map (fun k => (k, o.clock)) ++ o.issuedAt,
+                   relayed := (news.filter (fun m => m.origin != a)).map (fun m => (m.origin, m.seq)) ++ o.relayed,
+                   forged := (news.filter (fun m => m.origin != a && !(decide (ctr < m.seq) && decide (m.seq ≤ ctr + news.length)))).map
+                     (fun m => (m.origin, m.seq)) ++ o.forged }
         | none => o
       | _, _ => o
     | _ => o
+  let o := v.nodes.foldl (fun o nv => { o with counters := (nv.id, nv.seq) :: o.counters.filter (fun c => c.1 != nv.id) }) o
   v.queues.foldl (fun o q => o.setQueue q.a q.b q.msgs) o
 
 def specLine (p : Prop5) (st : Option Obs) (input : String) : Option Obs × String :=
@@ -555,14 +592,20 @@ def specLine (p : Prop5) (st : Option Obs) (input : String) : Option Obs × Stri
       | none => (none, "ok")
       | some o =>
         if impl.startsWith "panic" || impl.startsWith "crash" then (some o, "fail crashed") else
+        if toks.head? == some "race" then
+          (some { o with clock := o.clock + 1 },
+            if (tokens impl == ["r=race", "accepted=1", "fwd=1"]) || tokens impl == ["r=bad"] then "ok"
+            else "fail race-announcement-processed-or-forwarded-twice") else
         let v := parseView impl
         if !v.ok then (some o, "fail unparsable-answer") else
         let o1 := { o with clock := o.clock + 1 }
         -- history-dependent checks use the observation BEFORE this op (but the new clock and relayed set)
         let o' := o.update toks v
-        let oc := { o1 with relayed := o'.relayed, genuine := o'.genuine, links := o'.links, genuinePrev := o.genuine }
+        let oc := { o1 with relayed := o'.relayed, genuine := o'.genuine, links := o'.links, genuinePrev := o.genuine,
+                            lastDisc := o'.lastDisc, issuedAt := o'.issuedAt, forged := o'.forged }
         let checks :=
           (if p == .c12 && toks == ["dump", "converged"] then convergeChecks oc v else []) ++
+          (if p == .c14 && toks == ["dump", "converged"] then renewedChecks { oc with lastAnn := o'.lastAnn } v else []) ++
           opChecks p oc toks v ++
           (v.nodes.map (fun nv => (nv.tab.map (entryChecks p oc nv.id)).flatten)).flatten ++
           (v.queues.map (fun q => (q.msgs.map (msgChecks p oc)).flatten)).flatten
@@ -570,6 +613,57 @@ def specLine (p : Prop5) (st : Option Obs) (input : String) : Option Obs × Stri
         | some tag => (some o', "fail " ++ tag)
         | none => (some o', "ok")
   | _ => (st, "bad-op")
+
+/-- default / follow modes. -/
+def stepLine (follow : Bool) (st : Option Net) (input : String) : Option Net × String :=
+  let (opLine, impl) := if follow then
+      match input.splitOn "\t" with
+      | [o, i] => (o, i)
+      | _ => (input, "")
+    else (input, "")
+  let toks := tokens opLine
+  match toks with
+  | "reset" :: _ =>
+    match parseReset toks with
+    | some c => let s := c.initNet; (some s, resetLine s)
+    | none => (none, "r=bad")
+  | _ =>
+    match st with
+    | none => (none, "r=noreset")
+    | some s =>
+      match toks with
+      | ["race", k, rounds] =>
+        -- stateless stress op: with an atomic test-and-set the answer is always 1 / 1
+        (some (step s .dump), match nat? k, nat? rounds with
+          | some k, some r => if k < 2 ∨ k > 16 ∨ r < 1 ∨ r > 5000 then "r=bad" else "r=race accepted=1 fwd=1"
+          | _, _ => "r=bad")
+      | _ =>
+      match parseOp toks with
+      | .bad ans => (some (step s .dump), ans)
+      | .op (.replay a b _) =>
+        -- the frames the implementation emitted: the new tail of its queue a → b
+        let hint : List RFrame := if follow then
+            match (parseView impl).queues.find? (fun q => q.a == a && q.b == b) with
+            | some q => (q.msgs.drop (queueOf s a b).length).map (fun m =>
+                { origin := m.origin, ptail := m.path.drop 1, routes := m.routes })
+            | none => []
+          else []
+        let (s', out) := exec s (.replay a b hint)
+        -- frames that are not an admissible outcome of SendFullTable are not followed
+        let admissible := !follow || !(a < s.n ∧ b < s.n ∧ linked s a b) || hintOK (s.nodes a) b hint
+        (some s', if admissible then out else out ++ " inadmissible-frames")
+      | .op (.announce a _) =>
+        let hint : Option (List (List RAd)) := if follow then
+            match (parseView impl).queues.head? with
+            | some q => some ((q.msgs.drop (queueOf s q.a q.b).length).map (·.routes))
+            | none => none
+          else none
+        let (s', out) := exec s (.announce a (hint.getD []))
+        let admissible := match hint with
+          | some h => !(a < s.n) || groupingOK (announcedRoutes a (s.nodes a)) h
+          | none => true
+        (some s', if admissible then out else out ++ " inadmissible-grouping")
+      | .op o => let (s', out) := exec s o; (some s', out)
 
 def mainWith (p : Prop5) (args : List String) : IO Unit :=
   match args with
